@@ -54,12 +54,35 @@ def correspondence(payload):
             d2, m2 = g.run_replay("c09", MODE, preds, n_values, int(payload["seed"]) + 10 * s)
             desc += d2
             mism += m2
+    # is_tuple_of_p: its own program (Lemmas/GenTupleOf.v), tuples compared component by component in order
+    import ast as _ast, json as _json, os as _os
+    tsrc = _ast.unparse(_ast.parse(open(_os.path.join(vlib.REPO, "predicate/tuple_of_predicate.py")).read()))
+    fpf = _os.path.join(_os.path.dirname(__file__), "fingerprints", "c08_tuple_of.json")
+    if not _os.path.exists(fpf) or _json.load(open(fpf)).get("source") != tsrc:
+        fp.append({"case": "source fingerprint", "file": "predicate/tuple_of_predicate.py", "note": "Lemmas/TupleOf.v / GenTupleOf.v were written against another text"})
+    tdesc, tmism = g.run_replay_tuple("c09", g.tuple_grid(), n_values, int(payload["seed"]) + 1)
+    if payload["tier"] == "thorough":
+        for s in (2, 3):
+            d2, m2 = g.run_replay_tuple("c09", g.tuple_grid(), n_values, int(payload["seed"]) + 10 * s)
+            tdesc += d2
+            tmism += m2
+    # is_dict_of_p: Lemmas/DictOf.v (__call__) + Lemmas/GenDictOf.v (generator)
+    dsrc = _ast.unparse(_ast.parse(open(_os.path.join(vlib.REPO, "predicate/dict_of_predicate.py")).read()))
+    fpd = _os.path.join(_os.path.dirname(__file__), "fingerprints", "c09_dict_of.json")
+    if not _os.path.exists(fpd) or _json.load(open(fpd)).get("source") != dsrc:
+        fp.append({"case": "source fingerprint", "file": "predicate/dict_of_predicate.py", "note": "Lemmas/DictOf.v / GenDictOf.v were written against another text"})
+    ddesc, dmism, dextra = g.run_replay_dict("c09", g.dict_grid(), n_values, int(payload["seed"]) + 1)
+    desc += tdesc + ddesc
+    mism = tmism + dmism + mism
     return {"evaluations": sum(d["values"] for d in desc), "distinct_nontrivial": len({d["p"] for d in desc if d["values"] >= 2}),
-            "streams_replayed": len(desc), "draws_replayed": sum(d["draws"] for d in desc),
+            "streams_replayed": len(desc), "draws_replayed": sum(d["draws"] for d in desc), "tuple_of_streams_replayed": len(tdesc), "dict_of_streams_replayed": len(ddesc), **dextra,
             "rule": "generate_true over the grid (int bounds 0..+-(sys.maxsize+1)..1e30, float bounds 0..1e300 and subnormal, datetime/str constants, "
                     "eq/ne/in/not_in, none/truthy/empty, nine type tests, all_p/any_p/set-of over 12 element kinds, &, |, has_key): every random "
                     "draw of the implementation is recorded and replayed on the Coq program gen_true; the first N values must agree; "
-                    "non-trivial = streams with at least 2 values",
+                    "non-trivial = streams with at least 2 values; is_tuple_of_p over 23 component lists (0-6 components, finite and empty component "
+                    "streams, every constant sort) replayed on gen_tuple_of, tuples compared component by component in order; is_dict_of_p over 16 entry lists (literal, overlapping, "
+                    "equal and never-satisfied keys) replayed on gen_dict_of, dicts compared item by item in insertion order, and DictOfPredicate.__call__ "
+                    "compared with dict_of_items on the yielded and on hand-written dicts",
             "samples": desc[:: max(1, len(desc) // 5)][:5], "mismatches": fp + mism[:15]}
 
 
